@@ -50,6 +50,19 @@ PROPS = {
         "assumptions": ["distinct step names", "map iteration in insertion order (results do not depend on order for distinct names)"],
         "outside_claim": COMMON_OUTSIDE + ["random graphs of up to 40 steps (sampling; not this technique)"],
     },
+    "C17": {
+        "obligations": [
+            {"name": "C17.chain", "pkg": "./internal/frontend/middleware", "replay": "R1",
+             "quick": {"entry": "VerifHarness_C17_chain4", "flags": ["-unwind", "24", "-solver", "cvc5", "-fallback", "z3", "-query-timeout-ms", "5000"],
+                       "bounds": {"secret_len": 4, "header": "absent | <6 bytes | 6 bytes ++ base64(cred<=9) | 6 bytes ++ undecodable tail<=8", "methods": "GET POST OPTIONS", "base_path": "'' | /x", "split_separators": 3}},
+             "thorough": {"entry": "VerifHarness_C17_chain6", "flags": ["-unwind", "24", "-solver", "cvc5", "-fallback", "z3", "-query-timeout-ms", "10000"], "timeout_s": 3000,
+                          "bounds": {"secret_len": 6, "header": "absent | <6 bytes | 6 bytes ++ base64(cred<=13) | 6 bytes ++ undecodable tail<=12", "methods": "GET POST OPTIONS", "base_path": "'' | /x", "split_separators": 3}}},
+        ],
+        "assumptions": ["(*http.Request).BasicAuth replaced by its contract over the harness-declared decoding: the credential part is either base64(cred) (encoder uninterpreted but length- and alphabet-exact) or a tail containing a non-base64 byte (the chain never inspects the alphabet other than through base64 decoding)",
+                        "chi RequestID/Logger/Recoverer are identity wrappers", "a configured token containing a space cannot be presented in standard form (RFC 6750) and is excluded from the completeness clause only",
+                        "OPTIONS requests count as passed when the CORS layer behind the auth chain answered them"],
+        "outside_claim": COMMON_OUTSIDE + ["go-swagger routing behind the chain", "TLS, timing side channels", "headers with more than 3 spaces (cut, counted in paths_cut_by_bound)"],
+    },
 }
 
 
